@@ -133,6 +133,9 @@ def laws(tier):
     out.append(_i("FlagsEnum(Byte, F with combined names)<->keywords", "FlagsEnum(Byte, F)", "FlagsEnum(Byte, one=1, two=2, eight=8)", [0, 1, 2],
                   ("flagsenum", ("fmt", "Int8ub"), [["one", 1], ["two", 2], ["eight", 8]]), extra="F2"))
     for w in ("Hex", "HexDump"):
+        for nm, sz in (("Int8sb", 1), ("Int16sl", 2), ("Int24sb", 3)):
+            if w == "Hex":
+                out.append(_i("%s(%s)<->%s" % (w, nm, nm), "%s(%s)" % (w, nm), nm, [sz - 1, sz, sz + 1], ("fmt", nm) if sz != 3 else ("bytesint", 3, True, False)))
         out.append(_i("%s(Int32ul)<->Int32ul" % w, "%s(Int32ul)" % w, "Int32ul", [3, 4, 5], ("fmt", "Int32ul")))
         out.append(_i("%s(Bytes(3))<->Bytes(3)" % w, "%s(Bytes(3))" % w, "Bytes(3)", [2, 3, 4], ("bytes", 3)))
         out.append(_i("%s(Struct)<->Struct" % w, "%s(Struct('a'/Byte,'b'/VarInt))" % w, "Struct('a'/Byte,'b'/VarInt)", [1, 2, 3],
@@ -146,6 +149,13 @@ def laws(tier):
     out.append(_i("x[this.n]<->Array(this.n)", "Byte[this.n]", "Array(this.n, Byte)", [0, 1, 2, 3], ("arraykw", "n", ("fmt", "Int8ub")), kw=["n"]))
     out.append(_i("a+b<->Struct", "'a'/Byte + 'b'/Int16sl + 'c'/VarInt", "Struct('a'/Byte, 'b'/Int16sl, 'c'/VarInt)", [2, 3, 4, 5],
                   ("struct", [["a", ("fmt", "Int8ub")], ["b", ("fmt", "Int16sl")], ["c", ("varint",)]])))
+    out.append(_i("a+named Struct+c<->Struct with a nested member", "'a'/Byte + 'inner'/Struct('b'/Byte, 'z'/Int16ub) + 'c'/Byte", "Struct('a'/Byte, 'inner'/Struct('b'/Byte, 'z'/Int16ub), 'c'/Byte)", [3, 4, 5, 6],
+                  ("struct", [["a", ("fmt", "Int8ub")], ["inner", ("struct", [["b", ("fmt", "Int8ub")], ["z", ("fmt", "Int16ub")]])], ["c", ("fmt", "Int8ub")]])))
+    out.append(_i("a>>named Sequence>>c<->Sequence with a nested member", "Byte >> 's'/Sequence(Byte, Int16ub) >> Byte", "Sequence(Byte, 's'/Sequence(Byte, Int16ub), Byte)", [3, 4, 5, 6],
+                  ("seq", [("fmt", "Int8ub"), ("seq", [("fmt", "Int8ub"), ("fmt", "Int16ub")]), ("fmt", "Int8ub")])))
+    out.append(_i("documented Struct operand stays nested", "'a'/Byte + (Struct('b'/Byte) * 'doc') + 'c'/Byte", "Struct('a'/Byte, Struct('b'/Byte) * 'doc', 'c'/Byte)", [2, 3, 4], None))
+    for sg in (False, True):
+        out.append(_i("BytesInteger(this.n)<->Bitwise(BitsInteger(8*this.n)) s=%d" % sg, "BytesInteger(this.n + 1, signed=%r)" % sg, "Bitwise(BitsInteger(8 * (this.n + 1), signed=%r))" % sg, [0, 1, 2, 3, 4], None, kw=["n"]))
     out.append(_i("a>>b<->Sequence", "Byte >> Int16sl >> VarInt", "Sequence(Byte, Int16sl, VarInt)", [2, 3, 4, 5],
                   ("seq", [("fmt", "Int8ub"), ("fmt", "Int16sl"), ("varint",)])))
     out.append(_i("name/x<->Renamed", "Struct('num'/Byte, 'd'/Bytes(this.num & 1))", "Struct(Renamed(Byte, newname='num'), Renamed(Bytes(this.num & 1), newname='d'))",
@@ -276,6 +286,9 @@ def harness(ctx, C, p):
     if p["op"] == "embed":
         return _embed(ctx, C, L, R, kw)
     if p["op"] == "parse":
+        if p["kw"]:
+            for side in (L, R):          # both sides were used before, on an input that is too short (same objects, same context)
+                api.outcome(side.parse, b"\xe1", **{k: 1 for k in p["kw"]})
         data = ctx.bytes("data", p["n"])
         s1, s2 = ctx.stream(data), ctx.stream(data)
         r1, r2 = api.outcome(L.parse_stream, s1, **kw), api.outcome(R.parse_stream, s2, **kw)
